@@ -74,6 +74,19 @@ def lenDecode : Bytes → Dec Bytes
 
 def lenCodec : Codec Bytes := ⟨lenDecode, defaultEof lenDecode⟩
 
+/-- end of stream of the second length-prefixed test codec (`LenXCodec` in the harness), which has
+SEVERAL end-of-stream frames: what `decode` yields first; then a truncated frame comes out as one
+`T`-frame (`84 :: leftover`, everything consumed); then, on the empty buffer, one `E`-frame (`[69]`)
+— the codec remembers that it has emitted it by leaving the mark `254` in the buffer (a `Decoder`
+owns `&mut BytesMut`), on which `decode_eof` answers `None` for good -/
+def lenxEof (b : Bytes) : Dec Bytes :=
+  match lenDecode b with
+  | .frame f r => .frame f r
+  | .err k r => .err k r
+  | .need => if b.isEmpty then .frame [69] [254] else if b = [254] then .need else .frame (84 :: b) []
+
+def lenxCodec : Codec Bytes := ⟨lenDecode, lenxEof⟩
+
 /-! ## Read side -/
 
 /-- what the scripted transport answers to one `poll_read` -/
